@@ -5,6 +5,7 @@
  * switch / create / destroy events; the runtime model `Rt` consumes exactly those.
  * usage: rt <kernel threads> <script>; ops: y yield, l/u mutex lock/unlock, w/p semaphore
  * wait/post, s sleep one tick */
+#define VH_REG_RESULT 1
 #include "rtcommon.h"
 #include "fiber_event.h"
 #include "fiber_mutex.h"
